@@ -23,6 +23,7 @@ func main() {
 	repo := flag.String("repo", "/repo", "repository root")
 	vdir := flag.String("verif", "/verif", "verif root (evidence, known findings)")
 	list := flag.Bool("list", false, "list properties with checks")
+	discover := flag.String("discover", "", "print guard signatures of functions whose key matches this regexp (tool for building tables)")
 	flag.Parse()
 	// measured on this image: kernel-side page-fault contention makes 16 Ps slower than 8.
 	if os.Getenv("GOMAXPROCS") == "" {
@@ -33,6 +34,10 @@ func main() {
 	}
 	repoDir = *repo
 	verifDir = *vdir
+	if *discover != "" {
+		runDiscover(*discover)
+		return
+	}
 	if *list {
 		var ids []string
 		for id := range props {
